@@ -1,15 +1,23 @@
 """C12 — single-row legalizer: order-preserving, optimal, exact costs."""
 VARIANT = "san"
 RULE = "see stats"
+# Every clause of the property is proved for all inputs on the model; nothing is partial.
 PARTIAL = []
 ASSUMPTIONS = [
     "C++ int/long long arithmetic modelled as unbounded Int (no-overflow on the C07 domain is exercised by the 2^22 stream under UBSan)",
     "std::priority_queue modelled as a sorted list (equal bounds are identical, so heap order among them is unobservable)",
+    "'insertions that fit' = every pushed width is positive and <= remainingSpace() at the time of the push (Fits); cost queries are unconstrained",
+    "competing placements are integer placements (the legalizer works on integer coordinates)",
 ]
-LEVEL_TEXT = ("Lean 4 theorems over an executable model of RowLegalizer (feasibility of the returned placement for every "
-              "push sequence that fits, purity of cost queries, prediction = push); the model is tied to the C++ by an "
-              "exhaustive small-bound + random + 2^22-magnitude differential stream; optimality and exact cost sums are "
-              "additionally checked against a brute-force optimum on every enumerated instance")
+LEVEL_TEXT = ("Lean 4 theorems, all for every segment and every operation sequence that fits (pushes with cost queries interleaved "
+              "anywhere), over the executable model of RowLegalizer: rowleg_feasible / rowleg_feasible_pointwise (positions in push "
+              "order, inside the segment, non-overlapping), getCost_pure (state unchanged) and getCost_eq_push (prediction = push), "
+              "clear_resets, rowleg_optimal (the returned placement minimises sum w|x-t| over ALL ordered non-overlapping integer "
+              "placements in the segment; proved via the value-function invariant OPT_k(x) = C_k + eval bounds_k x - eval bounds_k lim_k), "
+              "cost_sum_exact (reported push costs sum exactly to that minimum), cost_sum_is_minimum, getCost_is_marginal_optimum; "
+              "cost_sum_drifts records the pre-fix defect on the legacy cost function (decide).  The model is tied to the C++ by an "
+              "exhaustive small-bound + random + 2^22-magnitude differential stream; optimality and exact cost sums are additionally "
+              "checked against a brute-force optimum on every enumerated instance of the real code")
 LEVEL_NOTE = ("Trusted: Lean kernel (axioms propext/Classical.choice/Quot.sound only), the hand-written model's tie to the code "
               "(differential, bounded by the generator), unbounded Int for C++ int, sorted list for std::priority_queue.")
 TECHNIQUE = "Lean 4 proof (induction over push sequences) + model/implementation correspondence stream"
